@@ -20,18 +20,12 @@ Theorem C17_parse_total :
 Proof. exact C17_parse_total_proof. Qed.
 Print Assumptions C17_parse_total.
 
-(* "parsing never crashes, whatever the input": false of the faithful model - the walker dereferences the
-   outbound function of a routing rule without a nil check. *)
-Definition C17_parse_never_crashes_full : Prop := forall text : str, parse text <> PCrash.
-Theorem C17_parse_never_crashes_refuted :
-  exists text : str, parse text = PCrash.
-Proof. exact C17_parse_never_crashes_refuted_proof. Qed.
-Print Assumptions C17_parse_never_crashes_refuted.
-(* what holds: no text that spells a well-formed tree crashes *)
-Theorem C17_parse_never_crashes_partial :
-  forall c : sconfig, wf_config c = true -> parse (show c) <> PCrash.
-Proof. exact C17_parse_never_crashes_partial_proof. Qed.
-Print Assumptions C17_parse_never_crashes_partial.
+(* Parsing never crashes, whatever the input: on every byte string the model of config_parser.Parse answers
+   with sections or with an error - never with the crash outcome (a walker panic). *)
+Theorem C17_parse_never_crashes :
+  forall text : str, (exists ss, parse text = POk ss) \/ parse text = PErr.
+Proof. exact C17_parse_never_crashes_proof. Qed.
+Print Assumptions C17_parse_never_crashes.
 
 (* Merging: when the merger answers with a configuration, that configuration is, section by section, the
    including file's items followed by those of every included file in listed order (recursively), over the
@@ -63,18 +57,18 @@ Theorem C17_only_dae_in_dir :
 Proof. exact C17_only_dae_in_dir_proof. Qed.
 Print Assumptions C17_only_dae_in_dir.
 
-(* Capacity: a program with a domain match set beyond the supported size must be answered with an error.
-   False of the faithful model (the userspace builder indexes a fixed array with the rule index). *)
-Definition C17_over_limit_is_error_full : Prop :=
-  forall ds, existsb (fun i => max_match_set_len <=? i) ds = true -> build_userspace ds = WErr.
-Theorem C17_over_limit_is_error_refuted :
-  exists ds, existsb (fun i => max_match_set_len <=? i) ds = true /\ build_userspace ds = WCrashed.
-Proof. exact C17_over_limit_refuted_proof. Qed.
-Print Assumptions C17_over_limit_is_error_refuted.
-Theorem C17_over_limit_is_error_partial :
-  forall ds, forallb (fun i => i <? max_match_set_len) ds = true -> build_userspace ds = WOk tt.
-Proof. exact C17_over_limit_partial_proof. Qed.
-Print Assumptions C17_over_limit_is_error_partial.
+(* Capacity: every rule program with more match sets than the supported size is answered with an error, and
+   no program - whatever its size and wherever its domain sets are (their indices are rule indices, below the
+   number of match sets) - crashes the builder. *)
+Theorem C17_over_limit_is_error :
+  forall n ds, max_match_set_len <? n = true -> build_userspace n ds = WErr.
+Proof. exact C17_over_limit_is_error_proof. Qed.
+Print Assumptions C17_over_limit_is_error.
+
+Theorem C17_build_never_crashes :
+  forall n ds, (forall i, In i ds -> i < n) -> build_userspace n ds <> WCrashed.
+Proof. exact C17_build_never_crashes_proof. Qed.
+Print Assumptions C17_build_never_crashes.
 
 (* Non-vacuity: a tree using every production is well formed, and its spelling parses to its denotation. *)
 Example C17_nonvacuous :
